@@ -313,10 +313,18 @@ func wireFault(t *rapid.T, d *m.Design, meth *m.Method, c *caseRec) bool {
 			opts = append(opts, []harness.Edit{{Op: "json_set", Name: f.Name, Value: `12345`}})
 		}
 	}
+	// the request sent without any body (the document's requestBody.required
+	// against the server's missing_payload)
+	if len(gen.BodyAttrs(d, meth)) > 0 || (h.Body != nil && h.Body.Mode == "attr") {
+		opts = append(opts, []harness.Edit{{Op: "del_body"}})
+	}
 	if len(opts) == 0 {
 		return false
 	}
 	c.Edits = opts[rapid.IntRange(0, len(opts)-1).Draw(t, "wirefault")]
+	if c.Edits[0].Op == "del_body" {
+		stats.Class("wire:body-removed")
+	}
 	return true
 }
 
